@@ -56,7 +56,9 @@ def text_family(ctx, mode, big):
 
 
 def c04(ctx):
-    depth = 2 if ctx.quick else 3
+    # every spelling of every state: depth 2 in both tiers (depth 3 x 10 spellings is several million read events); the
+    # thorough tier deepens the random values, the families and the number of recorded values instead
+    depth = 2
     vecs = zinc_universe(ctx, depth)
     names = ["plain", "sp+comma", "tabsp+trail", "crlf+endnl", "uni+dot0", "UNI+e0", "raw+E+0", "shift+endnl", "us", "alt"]
     reads = []
@@ -120,7 +122,7 @@ def c02(ctx):
 
 
 def c05(ctx):
-    depth = 2 if ctx.quick else 3
+    depth = 2      # as c04: depth 3 x 7 spellings is out of reach; thorough deepens the recorded values and the tree family
     vecs = hayson_universe(ctx, depth)
     names = ["plain", "rev", "rot+dictKind", "metaAbsent+dot0", "metaEmpty+e0+utcTz", "rev+shift+dictKind+metaAbsent", "rot+E+0+utcTz"]
     reads = []
@@ -253,7 +255,10 @@ def c10(ctx):
     longs = [{"op": "enc.long", "holder": h, "ch": c, "pad": p, "n": n}
              for h in ("str", "uri", "refdis", "ref", "symbol", "xstr", "list", "dict", "grid") for c in ("\u00e9", "\u20ac", "\U0001F600")
              for p in range(4) for n in ((1, 7, 15, 16, 31, 32, 33, 63, 64, 65, 127, 129, 255, 257) if q else tuple(range(1, 70)) + (127, 128, 129, 255, 256, 257, 1023, 1025, 4097, 65537))]
-    ev1 = hs_run(ctx, vecs + nests + longs, "gen")
+    import vlib
+    allz = json.loads(vlib.sh([vlib.HS, "zones"], check=True)[1])
+    zones = [{"op": "enc.zone", "zone": z} for z in (allz[::4] + [z for z in allz if "/" not in z] if q else allz)]
+    ev1 = hs_run(ctx, vecs + nests + longs + zones, "gen")
     ctx.bads += tlc_trace(ctx, "Trace_Enc", ev1, shards=12)
     note_events(ctx, ev1, key=lambda e: [e.get("v"), e.get("form"), e.get("n")])
     # decoder images: everything a decoder accepts from foreign input is offered to both encoders and Display
@@ -412,7 +417,20 @@ def c09(ctx):
     ve, _ = tlc_mc(ctx, "MC_Texts", consts={"MaxLen": 3, "Mode": '"esc"', "EmitVectors": "TRUE", "KindFirst": "TRUE"},
                    invariants=["ReaderTotal", "Emit"], workers=8, timeout=3000)
     lit = [{"op": "filter.text", "text": [97, 32, 61, 61, 32] + x["text"], "src": "esc"} for x in (ve[::3] if q else ve)]
-    ev1 = hs_run(ctx, vp + muts + bombs + vw + lit, "gen")
+    # relationship terms over the same family of resolver graphs (tag equipRef instead of a; records with and without `id`)
+    def _cps(t):
+        return [ord(ch) for ch in t]
+    def _rel(x, with_ids):
+        ren = lambda tags: [[_cps("equipRef") if t[0] == [97] else t[0], t[1]] for t in tags if with_ids or t[0] != _cps("id")]
+        keyed = []
+        for r in x["db"]:
+            idv = [t[1] for t in r if t[0] == _cps("id")]
+            if idv:
+                keyed.append([idv[0]["id"], sorted(ren(r) + [[_cps("equip"), {"k": "marker"}]])])
+        rec = sorted(ren(x["rec"]) + [[_cps("id"), {"k": "ref", "id": _cps("p"), "dis": []}], [_cps("point"), {"k": "marker"}]])
+        return {"op": "filter.rel", "text": _cps("containedBy? @r1"), "rec": rec, "db": keyed}
+    rel = [_rel(x, w) for x in (vw[::2] if q else vw) for w in (True, False)]
+    ev1 = hs_run(ctx, vp + muts + bombs + vw + lit + rel, "gen")
     # bombs are dec.bomb events (Trace_Total), the rest filter events (Trace_Filter): split
     evs = read_ndjson(ev1)
     fa = ctx.fresh("filter") + ".ndjson"
@@ -456,12 +474,12 @@ def c13(ctx):
                   ["the defs grid is the input: its (def, is) projection is logged by the harness from the decoded Value", "taxonomies are acyclic"])
 
 
-def ns_mc(ctx, threads, nshards, wp, progs, keep=False, **kw):
+def ns_mc(ctx, threads, nshards, wp, progs, keep=False, live=True, **kw):
     consts = {"Threads": "{%s}" % ", ".join("t%d" % i for i in range(1, threads + 1)), "Syms": "<- MCSyms", "Graph": "<- MCGraph",
               "NShards": nshards, "WriterPref": "TRUE" if wp else "FALSE", "Programs": "<- " + progs,
               "KeepFirstGuard": "TRUE" if keep else "FALSE"}
     return tlc_mc(ctx, "MC_NsCache", consts=consts, invariants=["AnswerCorrect", "CacheCoherent", "NoPanic", "NoReentry", "GuardsReleased", "EmitHistory"],
-                  properties=[] if keep else ["Termination"], deadlock=True, workers=12, timeout=3400, **kw)
+                  properties=[] if (keep or not live) else ["Termination"], deadlock=True, workers=12, timeout=3400, **kw)
 
 
 def corrupt_check(ctx, module, events_path, mutate, what, stateful_reset=None):
@@ -495,7 +513,7 @@ def c14(ctx):
         ns_mc(ctx, 2, 2, False, "Progs1")
         ns_mc(ctx, 2, 1, True, "Progs2")
         ns_mc(ctx, 3, 1, True, "Progs3")
-        ns_mc(ctx, 3, 2, False, "Progs3")
+        ns_mc(ctx, 3, 2, False, "Progs3", live=False)     # safety and deadlock freedom only: the liveness graph of this instance is too large
     # sequential histories: every order of <= 3 queries, enumerated by TLC, replayed on a cold namespace
     vecs, _ = ns_mc(ctx, 1, 1, True, "ProgsSeq")
     ev1 = hs_run(ctx, vecs, "hist")
@@ -506,10 +524,10 @@ def c14(ctx):
     # forced on the real dashmaps, every thread held at the hook's gate and released one cache touch at a time in the
     # model's order, the touch it is about to make compared with the model's (kind, map, key)
     replays = []
-    for (threads, num) in ([("MCThreads", 400)] if q else [("MCThreads", 6000), ("MCThreads3", 3000)]):
+    for (threads, progs, num) in ([("MCThreads", "ProgsR", 400)] if q else [("MCThreads", "ProgsR", 6000), ("MCThreads3", "ProgsR1", 3000)]):
         v, _ = tlc_mc(ctx, "MC_NsReplay", spec="HSpec", simulate="num=%d" % num,
                       consts={"Threads": "<- " + threads, "Syms": "<- MCSyms", "Graph": "<- MCGraph", "NShards": 2, "WriterPref": "FALSE",
-                              "Programs": "<- ProgsR", "KeepFirstGuard": "FALSE", "SeqOf": "<- RankedSeqOf"},
+                              "Programs": "<- " + progs, "KeepFirstGuard": "FALSE", "SeqOf": "<- RankedSeqOf"},
                       invariants=["AnswerCorrect", "CacheCoherent", "NoPanic", "NoReentry", "Emit"], workers=1, timeout=3000)
         seen = set()
         for x in v:
@@ -667,7 +685,9 @@ def capi_scripts(q):
             {"fn": "haystack_filter_parse", "s": _S("a"), "newf": 1},        # first row only
             {"fn": "haystack_filter_parse", "s": _S("b"), "newf": 2},        # second row only
             {"fn": "haystack_filter_parse", "s": _S("zz"), "newf": 3},       # no row
-            {"fn": "haystack_filter_parse", "s": _S("a or b"), "newf": 4}]   # every row
+            {"fn": "haystack_filter_parse", "s": _S("a or b"), "newf": 4},   # every row
+            {"fn": "haystack_filter_parse", "s": _S("not a"), "newf": 5},    # holds on the second row and on a record without tags
+            {"fn": "haystack_value_make_dict", "newh": 10}]                  # a record without tags
     holders = {"empty": [{"fn": "haystack_value_init", "newh": 9}],
                "str": [{"fn": "haystack_value_make_str", "s": _S(P + "-held"), "newh": 9}],
                "list": [{"fn": "haystack_value_make_list", "newh": 9}, {"fn": "haystack_value_push_list_entry", "h": 9, "h2": 1}],
@@ -679,7 +699,8 @@ def capi_scripts(q):
                # a match, no match, another match, every row - into the same result handle (a stale result must not survive)
                [{"fn": "haystack_filter_first_match_in_grid", "fid": f, "h": 4, "h2": 9} for f in (1, 3, 2, 4, 3)],
                [{"fn": "haystack_filter_match_all_grid", "fid": f, "h": 4, "h2": 9} for f in (1, 3, 2, 4, 3)],
-               [{"fn": "haystack_filter_match_dict", "fid": f, "h": d} for f in (1, 2, 3, 4) for d in (2, 8)]]
+               [{"fn": "haystack_filter_match_dict", "fid": f, "h": d} for f in (1, 2, 3, 4, 5) for d in (2, 8, 10)],
+               [{"fn": "haystack_filter_first_match_in_grid", "fid": 5, "h": 4, "h2": 9}, {"fn": "haystack_filter_match_all_grid", "fid": 5, "h": 4, "h2": 9}]]
     for hk, mk in holders.items():
         for w in writers:
             for reps in (1, 4):
